@@ -49,7 +49,10 @@ class Contract:
         self.lemmas = dict(kw.pop("lemmas", {}))
         # {"callee qual": [substrings]}: postcondition clauses of that callee containing one of the substrings are not
         # imported at this function's call sites
-        self.callee_views = dict(kw.pop("callee_views", {}))    # case name -> dict(requires=[], ensures=[]) additions
+        self.callee_views = dict(kw.pop("callee_views", {}))
+        # built-in mutants on source lines containing one of these texts are not generated (statements that only feed
+        # external cost-accounting objects the property does not speak about); counted separately in the sweep
+        self.mutant_skip = list(kw.pop("mutant_skip", []))    # case name -> dict(requires=[], ensures=[]) additions
         assert not kw, "unknown contract keys %r" % list(kw)
 
     @property
